@@ -114,6 +114,8 @@ def gen_cases(ctx):
                 l["testSetUp"] = l["testTearDown"] = True
         o = worlds.gen_opts(rng, allow=("verbose", "repeat", "j"))
         o["buffer"] = rng.random() < 0.8
+        if rng.random() < 0.25:
+            o["xml"] = "xmlout"         # the XML wrapper hands the captured output on to the formatter
         cases.append(cw.Case(w, o))
     return cases
 
